@@ -118,7 +118,7 @@ fn wrap_arr(v: Vec<Value>) -> Value {
 }
 
 /// laws on observed truth values for one operand form: kept[op] = set of kept cell indices
-fn laws(acc: &mut Acc, kept: &[Option<Vec<u32>>; 6], ncells: usize, mirror: &dyn Fn(usize) -> Option<usize>, both_ordered: &dyn Fn(usize) -> bool, what: &str, q_of: &dyn Fn(Op) -> String) {
+fn laws(acc: &mut Acc, kept: &[Option<Vec<u32>>; 6], ncells: usize, mirror: &dyn Fn(usize) -> Option<usize>, both_ordered: &dyn Fn(usize) -> bool, what: &str, q_of: &dyn Fn(Op) -> String, cell: &dyn Fn(usize) -> Value) {
     let set = |o: Op| -> Option<Vec<bool>> {
         let idx = Op::ALL.iter().position(|x| *x == o).unwrap();
         kept[idx].as_ref().map(|ids| {
@@ -157,7 +157,8 @@ fn laws(acc: &mut Acc, kept: &[Option<Vec<u32>>; 6], ncells: usize, mirror: &dyn
         for b in bad {
             acc.viol(
                 format!("{} cell {}: {} (observed == {} != {} < {} <= {} > {} >= {})", what, i, b, eq[i], ne[i], lt[i], le[i], gt[i], ge[i]),
-                json!({"kind": "law", "class": format!("law: {}", b), "form": what, "cell": i, "query_eq": q_of(Op::Eq), "query_lt": q_of(Op::Lt), "query_gt": q_of(Op::Gt)}),
+                json!({"kind": "law", "class": format!("law: {}", b), "form": what, "cell": cell(i), "mirror_cell": mirror(i).map(|j| cell(j)), "ordered": both_ordered(i),
+                       "queries": Op::ALL.iter().map(|o| q_of(*o)).collect::<Vec<_>>()}),
             );
         }
     }
@@ -255,6 +256,7 @@ pub fn run(tier: &str) -> i32 {
                     &|i| plain && ((is_num(&u[i / n]) && is_num(&u[i % n])) || (is_str(&u[i / n]) && is_str(&u[i % n]))),
                     what,
                     &|op| format!("$[?{}{}{}]", l, op.text(), r),
+                    &|i| cells[i].clone(),
                 );
             }));
         }
@@ -388,4 +390,53 @@ pub fn run(tier: &str) -> i32 {
         true,
         json!({"value_universe": n, "scalar_literals": lits.len(), "cell_table": format!("{}x{}x6", n, n)}),
     )
+}
+
+
+/// replay of a law violation: the six operators on the recorded cell (and its mirror cell), laws re-checked
+pub fn replay_law(case: &Value, _run: &Run) -> Acc {
+    let mut acc = Acc::new();
+    let qs: Vec<String> = case["queries"].as_array().map(|a| a.iter().filter_map(|x| x.as_str().map(String::from)).collect()).unwrap_or_default();
+    if qs.len() != 6 {
+        return acc;
+    }
+    let mut cells = vec![case["cell"].clone()];
+    if !case["mirror_cell"].is_null() {
+        cells.push(case["mirror_cell"].clone());
+    }
+    let doc = Value::Array(cells.clone());
+    let dc = DocCtx::new(&doc);
+    let mut truth: Vec<Vec<bool>> = vec![];
+    for q in &qs {
+        let out = crate::imp::run_with_path(q, &doc, &dc.am);
+        println!("{} on {} -> {:?}", q, doc, out);
+        let ids: Vec<u32> = match out {
+            crate::imp::ImplOut::Ok(v) => v.iter().map(|x| x.0).collect(),
+            _ => vec![],
+        };
+        let ci = cell_indices(&cells, &ids);
+        truth.push((0..cells.len()).map(|i| ci.contains(&(i as u32))).collect());
+    }
+    // order of Op::ALL: Eq Ne Lt Le Gt Ge
+    let (eq, ne, lt, le, gt, ge) = (truth[0][0], truth[1][0], truth[2][0], truth[3][0], truth[4][0], truth[5][0]);
+    let mut bad = vec![];
+    if ne == eq {
+        bad.push("`!=` is not the negation of `==`");
+    }
+    if le != (lt || eq) {
+        bad.push("`<=` is not `<` or `==`");
+    }
+    if ge != (gt || eq) {
+        bad.push("`>=` is not `>` or `==`");
+    }
+    if cells.len() == 2 && gt != truth[2][1] {
+        bad.push("`>` is not the mirror image of `<`");
+    }
+    if case["ordered"].as_bool().unwrap_or(false) && (lt as u8 + eq as u8 + gt as u8) != 1 {
+        bad.push("trichotomy");
+    }
+    for b in bad {
+        acc.viol(format!("{} on cell {}: {}", case["form"], case["cell"], b), case.clone());
+    }
+    acc
 }
